@@ -87,9 +87,18 @@ def run_one(sh, case, driver='generated'):
     from bycycle.group import compute_features_2d
     from bycycle.utils.dataframes import epoch_df
     sigs = np.asarray(case['sigs'])
+    layout = case.get('layout', 'C')
     fs, f_range = case['fs'], tuple(case['f_range'])
     kw = case['kwargs']
     first = (kw[0] if isinstance(kw, list) else kw) or {}
+
+    def as_layout(a):
+        # same values, another memory layout: Fortran order or a transposed view of a C array
+        if layout == 'F':
+            return np.asfortranarray(a)
+        if layout == 'T':
+            return np.ascontiguousarray(a.T).T
+        return np.array(a, copy=True)
     E = sigs.shape[1]
     flat_sig = sigs.flatten()
     vs = []
@@ -111,11 +120,11 @@ def run_one(sh, case, driver='generated'):
                 bg = BycycleGroup(center_extrema=kw.get('center_extrema', 'peak'), burst_method=kw.get('burst_method', 'cycles'),
                                   burst_kwargs=copy.deepcopy(kw.get('burst_kwargs')), thresholds=copy.deepcopy(kw.get('threshold_kwargs')),
                                   find_extrema_kwargs=copy.deepcopy(kw.get('find_extrema_kwargs')))
-                bg.fit(np.array(sigs, copy=True), fs, f_range, axis=None, n_jobs=1)
+                bg.fit(as_layout(sigs), fs, f_range, axis=None, n_jobs=1)
                 res = bg.df_features
                 sh.note('via_BycycleGroup')
             else:
-                res = compute_features_2d(np.array(sigs, copy=True), fs, f_range, compute_features_kwargs=copy.deepcopy(kw),
+                res = compute_features_2d(as_layout(sigs), fs, f_range, compute_features_kwargs=copy.deepcopy(kw),
                                           axis=None, return_samples=True, n_jobs=1)
     except Exception as e:
         vs.append({'mechanism': attach.exc_mechanism(e),
@@ -183,6 +192,7 @@ def run_one(sh, case, driver='generated'):
                         break
     for v in vs:
         sh.violate(case, v, driver)
+    sh.note('layout=' + layout)
     sh.note('method=' + str(first.get('burst_method', 'cycles')))
     sh.note('center=' + str(first.get('center_extrema', 'peak')))
     sample = {'sigs': 'array%s' % (list(sigs.shape),), 'fs': fs, 'f_range': list(f_range), 'aligned': case.get('aligned'),
@@ -282,6 +292,7 @@ def make_case(rng):
                 del o['threshold_kwargs']          # this epoch uses the documented defaults
             kw.append(o)
     return dict(sigs=sigs, fs=fs, f_range=(lo, hi), kwargs=kw, aligned=bool(aligned), family=fam,
+                layout=['C', 'C', 'F', 'T'][int(rng.integers(0, 4))],
                 api='obj' if (isinstance(kw, dict) and rng.random() < 0.25) else 'func')
 
 
